@@ -598,3 +598,8 @@ package types
 //@   modifies everything
 //@   assert@call(Encode,0): $arg0 == w   [C03,C17]
 //@   must@call(Encode,0): true                                                                                  [C03]
+
+// a historical view of the account controller: an error or a handler
+//@ func (h IAccountHandler) ImmutableAcctCtrlerAt(height)
+//@   modifies everything
+//@   ensures (result1 == nil) <==> (result0 != nil)
